@@ -245,6 +245,10 @@ def run_rules(ctx, F, A, X):
     c03.check_choice(ctx, F, A, X, find_impl_body(F, SPT, "parse_with_tlf", "parser::common::ListType"), "parser::common::ListType",
                      SPEC_LISTTYPE[0], {k: v[0] for k, v in SPEC_LISTTYPE[1].items()}, payload={k: v[1] for k, v in SPEC_LISTTYPE[1].items()})
     c03.check_time(ctx, F, A, X)
+    # ---- lengths: a type-length field that is accepted with a wrapped or truncated length lets malformed input through
+    from . import c12
+    ctx.rule("R-C12-*", "TLF / primitive decoding is exact or rejected (the rules of C12; an accepted wrapped length is a soundness break too)")
+    c12.run_rules(ctx, F, A)
     # ---- MSGTLF
     for nm in ("parser::complete::Message", "parser::streaming::MessageStart"):
         b = find_impl_body(F, SP, "parse", nm)
